@@ -93,7 +93,7 @@ def one_case(ctx, k):
     d = os.path.join(ctx.scratch, f"c{k}")
     os.makedirs(d, exist_ok=True)
     try:
-        sc = F.observe(ctx, rng, d, dict(demux=None, trace=True, paired_p=0.45, interleaved_p=0.1))
+        sc = F.observe(ctx, rng, d, dict(demux=None, trace=True, paired_p=0.45, interleaved_p=0.2, mixed_layout_p=0.35))
         if sc is None:
             return
         sc.case["k"] = k
